@@ -759,6 +759,19 @@ func (ce *cenv) evalCall(e *CExpr) cvar {
 	case "int8":
 		argn(1)
 		return cvar{wrapInt(ce.evalInt(e.Args[0]), 8, true), types.Typ[types.Int8]}
+	case "addu32", "subu32":
+		// wrap-around sum/difference of two values already in [0, 2^32)
+		argn(2)
+		a, b := ce.evalInt(e.Args[0]), ce.evalInt(e.Args[1])
+		if e.Name == "addu32" {
+			return cvar{wrapSum(mkAdd(a, b), 32, false), types.Typ[types.Uint32]}
+		}
+		return cvar{wrapSum(mkSub(a, b), 32, false), types.Typ[types.Uint32]}
+	case "s32":
+		// reinterpret a value in [0, 2^32) as int32
+		argn(1)
+		a := ce.evalInt(e.Args[0])
+		return cvar{mkIte(mkLe(mkBig(pow2(31)), a), mkSub(a, mkBig(pow2(32))), a), types.Typ[types.Int32]}
 	case "iszero":
 		argn(1)
 		v := ce.eval(e.Args[0])
@@ -955,4 +968,76 @@ func (ce *cenv) refOf(v cvar) *Term {
 	}
 	ce.fail("ref(): unsupported value")
 	return nil
+}
+
+type cpart struct {
+	label string
+	term  *Term
+}
+
+// evalParts evaluates a boolean contract expression as a list of labelled conjuncts:
+// top-level && chains and calls of predicates are opened up so that every obligation is
+// small and carries a name taken from the contract text.
+func (ce *cenv) evalParts(e *CExpr, prefix string, depth int) []cpart {
+	x := ce.x
+	if e.Kind == "bin" && e.Op == "&&" {
+		return append(ce.evalParts(e.X, prefix, depth), ce.evalParts(e.Y, prefix, depth)...)
+	}
+	if depth < 3 {
+		switch e.Kind {
+		case "mcall":
+			recv := ce.eval(e.X)
+			rt := types.Unalias(recv.t)
+			if p := derefType(rt); p != nil {
+				rt = p
+			}
+			key := x.env.te.namedKey(rt) + "." + e.Name
+			if sd := x.env.con.Specs[key]; sd != nil && sd.IsPred && len(e.Args) == len(sd.Params) {
+				vars := map[string]cvar{sd.RecvName: recv}
+				for i, a := range e.Args {
+					vars[sd.Params[i].Name] = ce.eval(a)
+				}
+				sub := ce.sub(vars)
+				sub.useCells = false
+				sub.fr = nil
+				return sub.evalParts(sd.Body, prefix+e.String()+" > ", depth+1)
+			}
+		case "call":
+			if sd := x.env.con.Specs[e.Name]; sd != nil && sd.IsPred && len(e.Args) == len(sd.Params) {
+				vars := map[string]cvar{}
+				for i, a := range e.Args {
+					vars[sd.Params[i].Name] = ce.eval(a)
+				}
+				sub := ce.sub(vars)
+				sub.useCells = false
+				sub.fr = nil
+				return sub.evalParts(sd.Body, prefix+e.String()+" > ", depth+1)
+			}
+		}
+	}
+	return []cpart{{prefix + e.String(), ce.evalBool(e)}}
+}
+
+// assertClause asserts every conjunct of a clause as its own obligation.
+func (x *Exec) assertClause(st *State, kind, prefix string, ce *cenv, cl *Clause, pos token.Pos) {
+	if x.dry > 0 {
+		return
+	}
+	label := prefix
+	if cl.Name != "" {
+		label += "[" + cl.Name + "] "
+	}
+	for _, p := range ce.evalParts(cl.Expr, label, 0) {
+		x.assert(st, kind, p.label, p.term, pos, cl)
+	}
+}
+
+func (x *Exec) clauseEnv(fr *Frame, st *State, extra map[string]cvar) *cenv {
+	vars := x.frameVars(fr)
+	ce := &cenv{x: x, st: st, old: fr.old, vars: vars, fr: fr, useCells: true, bound: map[string]bool{}}
+	for k, v := range extra {
+		vars[k] = v
+		ce.bound[k] = true
+	}
+	return ce
 }
